@@ -29,7 +29,7 @@ SREC_FIELDS = ["state", "saved_state", "obj", "current", "obj_field_name"]
 
 class TokPE(pe.PE):
     def __init__(self, prog, fields, sfields, cfg, flags, max_depth, length, byte_domain):
-        super().__init__(prog, max_leaves=50000, max_steps=5000000, inline_depth=4)
+        super().__init__(prog, max_leaves=20000, max_steps=1500000, inline_depth=4)
         self.F = fields
         self.S = sfields
         self.cfg = cfg
@@ -209,6 +209,7 @@ class Table:
         """all outcomes of one call from configuration cfg"""
         h = TokPE(self.prog, self.F, self.S, cfg, self.flags, self.max_depth, length,
                   byte_domain if byte_domain is not None else range(-128, 128))
+        h.deadline = getattr(self, "deadline", None)
         st = pe.State()
         args = [("ptr", "tok", ()), ("ptr", "input", ()), pe.C(length)]
         leaves = h.run(self.fn, args, st)
@@ -402,10 +403,17 @@ class Table:
         return (depth, levels, quote if uses_quote else 0, st_pos if uses_pos else 0, dbl if uses_dbl else 0,
                 hs if uses_quote else 0)
 
-    def build(self, start=None, limit=4000):
+    def build(self, start=None, limit=4000, budget_s=None):
+        import time
+        t0 = time.time()
+        budget_s = budget_s or float(os.environ.get("JCV_TOK_BUDGET", "150"))
         work = [self.canon(start or initial_config())]
         seen = set(work)
+        self.deadline = t0 + budget_s
         while work:
+            if time.time() - t0 > budget_s:
+                raise AnalysisBroken("tokener automaton extraction exceeded its time budget (%ds, %d configurations so far)"
+                                     % (budget_s, self.stats["configs"]))
             cfg = work.pop()
             outs = self.step(cfg)
             self.trans[cfg] = outs
